@@ -1,5 +1,6 @@
 """C08 - the build is a function of its inputs: output bytes are deterministic."""
 import hashlib
+import json
 import os
 import sys
 
@@ -164,6 +165,22 @@ def build_job(seed, idx, sc, vi, var):
             order.reverse()  # the order of configuration files is an order of command-line arguments too
         argv += [ref_path(name) for name in order]
     sched = {"j": 1, "policy": "manifest", "seed": 0, "exec_at": "finish"} if vi == 0 else var["sched"]
+    if var.get("used_build_dir") and sc["kind"] != "vf":
+        # the build directory is not empty: an earlier build of the same project with the sources' contents rotated
+        # among the files (and, for flag delivery, one option different) has been there.  Not an input either.
+        names = [p for p, _ in sorted(sc["srcs"].items())]
+        contents = [c for _, c in sorted(sc["srcs"].items())]
+        pre = []
+        if len(names) > 1 and len({json.dumps(c, sort_keys=True) for c in contents}) > 1:
+            for p, c in zip(names, contents[1:] + contents[:1]):
+                pre.append({"op": "write", "path": proj + "/" + p, "content": c})
+            argv0 = list(argv)
+            if sc.get("delivery") == "flags" and "--upem" not in argv0:
+                argv0 = ["--upem", "2000"] + argv0
+            pre.append({"op": "invoke", "cwd": cwd, "argv": argv0, "build_dir": build_dir, "label": "earlier", "sched": var["sched"]})
+            for p, c in sorted(sc["srcs"].items()):
+                pre.append({"op": "write", "path": proj + "/" + p, "content": c})
+            ops.extend(pre)
     ops.append({"op": "invoke", "cwd": cwd, "argv": argv, "build_dir": build_dir, "label": "build", "sched": sched, "final": True})
     jid = "c08-%d-%d.v%d" % (seed, idx, vi)
     return {"id": jid, "root_id": "c08/%d/%d/v%d" % (seed, idx, vi), "hashseed": var["hashseed"], "clock_seed": H(seed, idx, vi) % (1 << 31),
@@ -174,14 +191,14 @@ def gen_case(seed, idx, pool, nvar):
     sc = gen_scenario(seed, idx)
     r = gen.rng(seed, "c08", idx, "vars")
     ref = {"hashseed": 0, "argv_perm": False, "readdir_seed": None, "cwd": "project", "build_dir": "default",
-           "glob": False, "abs_paths": False, "sched": None, "write_perm": False}
+           "glob": False, "abs_paths": False, "sched": None, "write_perm": False, "used_build_dir": False}
     variants = [ref]
     for vi in range(1, nvar + 1):
         variants.append({
             "hashseed": r.choice(pool), "argv_perm": r.random() < 0.8, "readdir_seed": r.randint(1, 1 << 30) if r.random() < 0.8 else None,
             "cwd": r.choice(["project", "project", "parent", "child", "sibling"]),
             "build_dir": r.choice(["default", "default", "absolute", "nested", "symlink"]),
-            "glob": r.random() < 0.5, "abs_paths": r.random() < 0.3, "sched": gen.sched(r), "write_perm": r.random() < 0.5,
+            "glob": r.random() < 0.5, "abs_paths": r.random() < 0.3, "sched": gen.sched(r), "write_perm": r.random() < 0.5, "used_build_dir": r.random() < 0.3,
         })
     jobs = [build_job(seed, idx, sc, vi, v) for vi, v in enumerate(variants)]
     return {"id": "c08-%d-%d" % (seed, idx), "jobs": jobs,
@@ -208,7 +225,7 @@ def _first_div(a, b):
 def judge(case, results):
     out = []
     m = case["meta"]
-    invs = [orch.invokes(r)[0] for r in results]
+    invs = [orch.invokes(r)[-1] for r in results]
     ref = invs[0]
     for vi, r in enumerate(invs):
         for n in r.get("ninja", []):
@@ -219,7 +236,7 @@ def judge(case, results):
         return out + [{"class": "discard", "detail": {"tail": (ref.get("steps_tail") or ref.get("driver_tail") or "")[-300:]}}]
     for vi, r in enumerate(invs[1:], 1):
         v = m["variants"][vi]
-        varied = ",".join(k for k in ("hashseed", "argv_perm", "readdir_seed", "cwd", "build_dir", "glob", "abs_paths", "write_perm")
+        varied = ",".join(k for k in ("hashseed", "argv_perm", "readdir_seed", "cwd", "build_dir", "glob", "abs_paths", "write_perm", "used_build_dir")
                           if v[k] != m["variants"][0][k]) + ",sched"
         if (r["rc"] == 0) != (ref["rc"] == 0):
             out.append({"class": "exit-status-varies", "detail": {"variant": vi, "varied": varied, "rc": [ref["rc"], r["rc"]],
@@ -249,7 +266,7 @@ def signature(case, results):
     m = case["meta"]
     sigs = []
     for vi, r in enumerate(results[1:], 1):
-        inv = orch.invokes(r)[0]
+        inv = orch.invokes(r)[-1]
         v = m["variants"][vi]
         ndiff = sum(1 for k in ("hashseed", "argv_perm", "readdir_seed", "cwd", "build_dir", "glob", "abs_paths") if v[k] != m["variants"][0][k])
         reached = any(s.get("rule", "").startswith("write_") for n in inv.get("ninja", []) for s in n["steps"] if "out" in s)
@@ -278,7 +295,7 @@ def extra_coverage(cases, results):
             hs.add(v["hashseed"])
             for k in ("cwd", "build_dir"):
                 dims["%s=%s" % (k, v[k])] += 1
-            for k in ("argv_perm", "glob", "abs_paths", "write_perm"):
+            for k in ("argv_perm", "glob", "abs_paths", "write_perm", "used_build_dir"):
                 if v[k]:
                     dims[k] += 1
             if v["readdir_seed"] is not None:
